@@ -102,6 +102,40 @@ static void c01_case(Ctx & c, const std::vector<double> & c1, const std::vector<
     c.sink.emit(e);
   }
   if constexpr (kIsBase) {
+    // the class-member forms of composition / inverse, including the in-place form with itself as right operand
+    {
+      const G r = g1 * g2;
+      auto e    = c.ev("compose");
+      e.str("api", "operator*").vec("a", coeffs_of(g1)).vec("b", coeffs_of(g2)).vec("out", coeffs_of(r));
+      c.sink.emit(e);
+    }
+    {
+      G r = g1;
+      r *= g2;
+      auto e = c.ev("compose");
+      e.str("api", "operator*=").vec("a", coeffs_of(g1)).vec("b", coeffs_of(g2)).vec("out", coeffs_of(r));
+      c.sink.emit(e);
+    }
+    {
+      G r = g1;
+      r *= r;
+      auto e = c.ev("compose");
+      e.str("api", "x*=x").vec("a", coeffs_of(g1)).vec("b", coeffs_of(g1)).vec("out", coeffs_of(r));
+      c.sink.emit(e);
+    }
+    {
+      G r = g2;
+      r   = r * r;
+      auto e = c.ev("compose");
+      e.str("api", "x=x*x").vec("a", coeffs_of(g2)).vec("b", coeffs_of(g2)).vec("out", coeffs_of(r));
+      c.sink.emit(e);
+    }
+    {
+      const G r = g2.inverse();
+      auto e    = c.ev("inverse");
+      e.str("api", "member").vec("a", coeffs_of(g2)).vec("out", coeffs_of(r));
+      c.sink.emit(e);
+    }
     {
       auto e = c.ev("matrix");
       e.vec("a", coeffs_of(g1)).mat("out", g1.matrix());
@@ -526,9 +560,9 @@ static int main_(int argc, char ** argv)
     for (long i = 0; i < n; ++i) {
       const int st = static_cast<int>(i % kNumElemStrata);
       auto cv = gen.element(c.rng, st, static_cast<int>(i / kNumElemStrata) % 3);
-      auto av = gen.tangent_c03(c.rng, static_cast<int>(i % 6));
-      auto bv = gen.tangent_c03(c.rng, static_cast<int>((i / 6) % 6));
-      auto dv = gen.tangent_c03(c.rng, c.rng.idx(6));
+      auto av = gen.tangent_c03(c.rng, static_cast<int>(i % 7));
+      auto bv = gen.tangent_c03(c.rng, static_cast<int>((i / 7) % 7));
+      auto dv = gen.tangent_c03(c.rng, c.rng.idx(7));
       c03_case(c, cv, av, bv, dv);
       if (i % 3 == 0) {
         auto c2 = gen.element(c.rng, c.rng.idx(kNumElemStrata), c.rng.idx(2));
